@@ -14,4 +14,14 @@ func runC07(p *Plan) {
 		p.Out.Count("initcap:" + itoa(initCap))
 		p.Out.Count("steps:" + itoa(steps/4*4))
 	}
+	// CopyTo of the built-in sequence types through a buffer that is in use before and after the copy
+	// ("… by Copy/CopyTo … keeps its content … however much is accumulated afterwards")
+	es := []*TypeEntry{p.Builtin("strings-s"), p.Builtin("strings-b")}
+	if es[0] != nil && es[1] != nil {
+		for i := 0; i < scale(p.Tier, 300, 3000); i++ {
+			e, eo := es[r.Intn(2)], es[r.Intn(2)]
+			OpCopyTo2(p.Out, e, eo, genSeq(r, e.Type, 1+r.Intn(4)), genSeq(r, eo.Type, r.Intn(3)), []Form{FormVal, FormPtr}[r.Intn(2)], FormPtr, bufClasses[r.Intn(4)])
+			p.Out.Count("strings-copyto")
+		}
+	}
 }
